@@ -16,6 +16,7 @@ pub mod c09;
 pub mod conn;
 pub mod c10;
 pub mod c11;
+pub mod c12;
 pub mod c13;
 pub mod c14;
 pub mod selftest;
@@ -39,6 +40,7 @@ pub const REGISTRY: &[(&str, &str, fn(&mut Ctx))] = &[
     ("C09", "model_checking", c09::run),
     ("C10", "model_checking", c10::run),
     ("C11", "model_checking", c11::run),
+    ("C12", "model_checking", c12::run),
     ("C13", "model_checking", c13::run),
     ("C14", "model_checking", c14::run),
     ("C15", "model_checking", c15::run),
@@ -59,6 +61,7 @@ pub fn replay(id: &str, case: &Value) -> Result<String, String> {
         "C07" | "C08" | "C09" => conn::replay(case),
         "C10" => c10::replay(case),
         "C11" => c11::replay(case),
+        "C12" => c12::replay(case),
         "C13" => c13::replay(case),
         "C14" => c14::replay(case),
         "C15" => c15::replay(case),
